@@ -141,13 +141,14 @@ void make_values(const vf_type *T, int m, int n, uint64_t pat, int scheme, dmat 
                                  factorization drops from U cancels every pivot candidate of a modified-ILU column (13: dropped sum positive, 14: negative) */
             int kj = 0; for (int t = 0; t < j && t < m; t++) kj += vf_pat_bit(m, n, pat, t, j);
             v = (i < j) ? 0.5 / (kj ? kj : 1) : -0.5; if (scheme == 14) v = -v; break; }
-        case 15: v = -(double)((i * 3 + j * 5 + 1) % 7 - 3); if (v == 0) v = -4; break;   /* V1 negated; complex: phases whose real and imaginary parts have opposite signs */
+        case 15: v = -(double)((i * 3 + j * 5 + 1) % 7 - 3); if (v == 0) v = -4; break;
+        case 16: v = (double)((i * 3 + j * 5 + 1) % 7 - 3); if (v == 0) v = 4; v = ldexp(v, (T->id == TS || T->id == TC) ? -140 : -1065); break;   /* V1 scaled into the subnormal range: non-zero pivot candidates below the safe minimum */   /* V1 negated; complex: phases whose real and imaginary parts have opposite signs */
         default: v = 1.0;
         }
         if (vf_pat_gen == 3) { int h3 = (int)(pat & 255); if (i < h3 && j < h3 && i != j && i != 0 && j != 0) v = 0.0; }   /* the extra cells of generator 3 are stored zeros */
         double _Complex z = v;
         if (T->cplx && scheme == 15) { switch ((i + 2 * j) & 3) { case 0: z = v * (0.6 - 0.8 * I); break; case 1: z = v * (-0.8 + 0.6 * I); break; case 2: z = v * (0.25 - 1.0 * I); break; default: z = v * (-I); } DM(A, i, j) = (xc)z; DZ(A, i, j) = 1; continue; }
-        if (T->cplx && scheme != 0 && scheme != 13 && scheme != 14) z = v * phase(i + 2 * j);
+        if (T->cplx && scheme != 0 && scheme != 13 && scheme != 14 && scheme != 16) z = v * phase(i + 2 * j);
         DM(A, i, j) = (xc)z; DZ(A, i, j) = 1;
     }
 }
